@@ -5,28 +5,57 @@ import sys
 from beyond.utils.node import Node
 
 
+# Node names are inputs too: scheme 0 = "1".."N"; scheme 1 mixes one-character names with longer names that
+# contain those characters (frames are registered under arbitrary user names such as "T" or "Toulouse")
+SCHEMES = [
+    None,
+    ["T", "Earth", "Toulouse", "C", "ITRF", "o", "MOD", "a"],
+    ["EME2000", "E", "M", "ITRF", "2", "Moon", "I", "0"],
+]
+
+
+def names_for(n, scheme):
+    if SCHEMES[scheme] is None:
+        return [str(i) for i in range(1, n + 1)]
+    return SCHEMES[scheme][:n]
+
+
 def project(nodes):
     n = len(nodes)
-    nb = [[int(x.name) for x in node.neighbors] for node in nodes]
+    idx = {node.name: i + 1 for i, node in enumerate(nodes)}
+    nb = [[idx[x.name] for x in node.neighbors] for node in nodes]
     rt = []
     for node in nodes:
         row = []
-        for t in range(1, n + 1):
-            r = node.routes.get(str(t))
-            row.append([0, 0] if r is None else [int(r.direction.name), int(r.steps)])
+        for t in nodes:
+            r = node.routes.get(t.name)
+            row.append([0, 0] if r is None else [idx[r.direction.name], int(r.steps)])
         rt.append(row)
     return {"nb": nb, "rt": rt}
 
 
 def api_view(nodes):
-    """What a user sees: path() for every ordered pair (None when ValueError)."""
+    """What a user sees: path() for every ordered pair (None when ValueError, "loop" when the walk does not end)."""
     n = len(nodes)
+    idx = {node.name: i + 1 for i, node in enumerate(nodes)}
     out = []
     for a in nodes:
         row = []
-        for t in range(1, n + 1):
+        for t in nodes:
+            # bounded re-implementation of the walk first: Node.path() would never return on a routing loop
+            cur, hops, ok = a, 0, True
+            while cur is not t:
+                r = cur.routes.get(t.name)
+                if r is None or hops > n:
+                    ok = False
+                    break
+                cur = r.direction
+                hops += 1
+            if not ok:
+                row.append(None if cur.routes.get(t.name) is None and hops <= n else "loop")
+                continue
             try:
-                row.append([int(x.name) for x in a.path(str(t))])
+                row.append([idx[x.name] for x in a.path(t.name)])
             except ValueError:
                 row.append(None)
         out.append(row)
@@ -51,8 +80,9 @@ def main(inp, outp):
         return states[key]
 
     api_mismatch = []
+    scheme = job.get("scheme", 0)
     for hist in job["hists"]:
-        nodes = [Node(str(i)) for i in range(1, n + 1)]
+        nodes = [Node(nm) for nm in names_for(n, scheme)]
         cur = intern(project(nodes), [])
         for j, (a, b) in enumerate(hist):
             ret = nodes[a - 1] + nodes[b - 1]
@@ -68,7 +98,9 @@ def main(inp, outp):
             for t in range(n):
                 w = view[a][t]
                 r = p["rt"][a][t] if hist else [0, 0]
-                if a != t and ((w is None) != (r == [0, 0])):
+                if w == "loop":
+                    api_mismatch.append({"hist": hist, "what": f"path({a+1},{t+1}) never terminates (routing loop)"})
+                elif a != t and ((w is None) != (r == [0, 0])):
                     api_mismatch.append({"hist": hist, "what": f"path({a+1},{t+1})={w} but route={r}"})
     with open(outp, "w") as fh:
         json.dump({
@@ -77,6 +109,7 @@ def main(inp, outp):
             "first_hist": first_hist,
             "api_mismatch": api_mismatch[:20],
             "replayed": len(job["hists"]),
+            "scheme": scheme, "names": names_for(n, scheme),
         }, fh)
 
 
